@@ -118,6 +118,7 @@ def twin_table(duals) -> dict:
 
 
 def run(prog: Program, rep, tier="quick"):
+    rep.rule("R15.7", "SIBLINGS-AGREE: binary search range convention of bisect_find_sha; Tree entries are tuples (what the Rust twin accepts)")
     rep.rule("R15.5", "SIBLINGS-AGREE through time: the twins reject on the subjects confirmed in rules/c15_twins.json (validation drift)")
     rep.rule("R15.1", "substitution table: Python def <-> registered Rust #[pyfunction] for every import-time substitution")
     rep.rule("R15.2", "every in-repo call of a dual function binds under the Python and the Rust signature")
@@ -185,8 +186,32 @@ def run(prog: Program, rep, tier="quick"):
                cur["rust_errors"] == ref["rust_errors"], f"{cur['rust_errors']} error sites, confirmed {ref['rust_errors']}", rfn.line)
     # ---- R15.6 the delta encoders are twins as well: their constants, splitting loops and varint form agree (shared with R03.5)
     from sa.common import share
-    share(rep, lambda: c03.run(prog, rep, tier), "R15.6", lambda o: o.rule == "R03.5",
+    share(rep, lambda: c03.run(prog, rep, tier), "R15.6", lambda o: o.rule in ("R03.5", "R03.8"),
           "TABLE-AGREE between the Python and the Rust delta encoder (shared with R03.5): copy limit, insert cap, split loops, op layout, size varint")
+    # ---- R15.7 the binary search twins treat their range the same way (inclusive `start..end`, both bounds step past the probe),
+    # and Tree stores its entries as real tuples (the Rust sorted_tree_items refuses any other 2-sequence)
+    pm_ = prog.module("dulwich/pack.py")
+    bs = pm_.funcs.get("bisect_find_sha") or pm_.funcs.get("_bisect_find_sha_py")
+    if bs is None:
+        raise AnalysisError("pack.bisect_find_sha (Python twin) not found")
+    wl_ = [w_ for w_ in ast.walk(bs.node) if isinstance(w_, ast.While)]
+    incl = len(wl_) == 1 and isinstance(wl_[0].test, ast.Compare) and isinstance(wl_[0].test.ops[0], ast.LtE) and norm(wl_[0].test).replace(" ", "") == "start<=end"
+    upd_ = sorted(norm(x) for x in ast.walk(bs.node) if isinstance(x, (ast.Assign, ast.AugAssign)) and norm(x.targets[0] if isinstance(x, ast.Assign) else x.target) in ("start", "end"))
+    rs_b = rfs["crates/pack/src/lib.rs"].fns.get("bisect_find_sha")
+    rt = rs_b.text() if rs_b else ""
+    rs_incl = ("if start > end { break ; }" in rt) or ("while start <= end" in rt)
+    rs_upd = "start = i + 1 ;" in rt and "end = i - 1 ;" in rt
+    rep.ob("R15.7", pm_.rel, bs.qual, "binary search over the inclusive range start..end, stepping to i + 1 / i - 1, in both implementations",
+           incl and upd_ == ["end = i - 1", "start = i + 1"] and rs_incl and rs_upd,
+           f"python: loop `{norm(wl_[0].test) if wl_ else '?'}`, updates {upd_}; rust inclusive {rs_incl}, updates +-1 {rs_upd}: a probe whose match sits at "
+           f"index `end` is found by one implementation and missed by the other", bs.node.lineno)
+    om = prog.module("dulwich/objects.py")
+    stores_ = [x for q_, f_ in om.funcs.items() if f_.cls == "Tree" for x in ast.walk(f_.node) if isinstance(x, ast.Assign) and isinstance(x.targets[0], ast.Subscript)
+               and norm(x.targets[0].value) == "self._entries"]
+    bad_ = [x for x in stores_ if not (isinstance(x.value, ast.Tuple) or (isinstance(x.value, ast.Call) and callee_name(x.value) in ("tuple", "TreeEntry")))]
+    rep.ob("R15.7", om.rel, "Tree", "entries are stored in Tree._entries as real tuples", bool(stores_) and not bad_,
+           f"`{norm(bad_[0], 60)}` stores whatever the caller passed: with a list value the pure-Python sorted_tree_items works and the Rust one raises "
+           f"TypeError" if bad_ else "", bad_[0].lineno if bad_ else 0)
     # ---- R15.2
     n_calls = 0
     for (rel, public), (pydef, rfn, rrel) in sorted(duals.items()):
@@ -250,6 +275,10 @@ def run(prog: Program, rep, tier="quick"):
     pt = rfs["crates/objects/src/lib.rs"].fns["parse_tree"].text()
     rep.ob("R15.4", "crates/objects/src/lib.rs", "parse_tree", "modes are parsed base 8 in both implementations",
            "from_str_radix ( text_str . as_str ( ) , 8 )" in pt and "int(mode_text, 8)" in norm(prog.module("dulwich/objects.py").funcs["parse_tree"].node, 100000), "", 0)
+    from sa.common import chunk_boundary_rule
+    rep.rule("R15.8", "CHUNKING: loops over an object's chunk list apply only operations that commute with concatenation (the twins chunk "
+                      "the output of apply_delta differently)")
+    chunk_boundary_rule(rep, "R15.8", prog.module("dulwich/objects.py"), floor=3)
     rep.floor("R15.1", 24)
     rep.floor("R15.2", 10)
     rep.floor("R15.3", 8)
